@@ -26,7 +26,6 @@ import (
 	"strconv"
 	"strings"
 	"time"
-	"unicode/utf8"
 
 	metav1 "k8s.io/apimachinery/pkg/apis/meta/v1"
 	"k8s.io/apimachinery/pkg/runtime"
@@ -239,6 +238,12 @@ func sortHV(l []HV) {
 func nextID() string { caseSeq++; return fmt.Sprintf("c%d", caseSeq) }
 
 func runForward(c *rig.Ctx, w *world, cs Case, record bool) bool {
+	if _, ok := resourceOf(rig.UnHex(cs.Req.Method), rig.UnHex(cs.Req.Target)); !ok && cs.Row == "" {
+		// the RequestInfo resolver refuses this target: the chain terminates the request (row requestinfo-error)
+		t := cs
+		t.Kind, t.Row = "term", "requestinfo-error-as-generated"
+		return runTerm(c, w, t, record)
+	}
 	id := nextID()
 	args := w.modelArgs(cs, id)
 	var m forwardModel
@@ -276,8 +281,9 @@ func runForward(c *rig.Ctx, w *world, cs Case, record bool) bool {
 	args["seenUp"] = o.Up
 	args["seenClient"] = o.Client
 	var v struct {
-		Req  reqVerdict  `json:"req"`
-		Resp respVerdict `json:"resp"`
+		Req                 reqVerdict  `json:"req"`
+		Resp                respVerdict `json:"resp"`
+		PathKnownReencoding bool        `json:"pathKnownReencoding"`
 	}
 	if err := c.Model("C04.judge", args, &v); err != nil {
 		rec(c, rig.Failure{Kind: "diff", Class: "c04.model-error", What: err.Error(), Case: cs})
@@ -300,6 +306,7 @@ func runForward(c *rig.Ctx, w *world, cs Case, record bool) bool {
 		{v.Resp.Status, "c04.resp.status", fmt.Sprintf("the client got status %d, the upstream sent %d", o.Client.Status, cs.Up.Status)},
 		{v.Resp.Body, "c04.resp.body", "the client received a different body: " + rig.UnHex(o.Client.Body)},
 		{v.Resp.Headers, "c04.resp.headers", "response headers differ: " + fmt.Sprint(o.RawResp.Header)},
+		{v.Req.PathNorm || v.PathKnownReencoding, "c04.path.norm", "the forwarded path differs from the client's beyond RFC 3986 normalisation: " + strconv.Quote(upT)},
 		{v.Req.PathNorm, "c04.path.invalid-raw-byte-reencoded", "the path has a byte net/url does not accept raw and is re-encoded from its decoded form (reserved bytes change between raw and escaped): upstream gets " + strconv.Quote(upT)},
 	} {
 		if !k.ok {
@@ -317,17 +324,8 @@ func runForward(c *rig.Ctx, w *world, cs Case, record bool) bool {
 	return true
 }
 
-// noAnswerClass separates the one structural cause seen so far: a decoded path that is not valid UTF-8.
-func noAnswerClass(cs Case) string {
-	t := rig.UnHex(cs.Req.Target)
-	if i := strings.IndexByte(t, '?'); i >= 0 {
-		t = t[:i]
-	}
-	if p, err := url.PathUnescape(t); err == nil && !utf8.ValidString(p) {
-		return "c04.no-answer.non-utf8-path"
-	}
-	return "c04.no-answer"
-}
+// noAnswerClass: a request that is neither forwarded nor answered.
+func noAnswerClass(cs Case) string { return "c04.no-answer" }
 
 func describe(cs Case) string {
 	hs := []string{}
@@ -392,7 +390,7 @@ func shrinkCase(cs Case, fails func(Case) bool) Case {
 // terminated answers
 
 type scenario struct {
-	LabelsUTF8    bool   `json:"labelsUTF8"`
+	RequestInfoOK bool   `json:"requestInfoOK"`
 	HostIsIP      bool   `json:"hostIsIP"`
 	ClusterKnown  bool   `json:"clusterKnown"`
 	DenyAll       bool   `json:"denyAll"`
@@ -404,22 +402,25 @@ type scenario struct {
 	PopOK         bool   `json:"popOK"`
 }
 
-var termRows = []string{"non-utf8-resource", "unknown-host", "deny-all", "unauthenticated", "no-token", "imp-refused", "imp-malformed", "no-policy",
+var termRows = []string{"requestinfo-error", "non-utf8-resource", "unknown-host", "deny-all", "unauthenticated", "no-token", "imp-refused", "imp-malformed", "no-policy",
 	"inflight", "inflight-events", "bucket", "no-ready", "disabled", "empty-subset", "ip-host", "down", "unknown-host-noauth", "deny-all-noauth"}
 
 // rowSetup turns a request into the one that triggers the row, and gives the scenario the model is asked about.
 // resourceOf asks the real RequestInfo resolver which resource a request addresses ("" for non-resource requests) and
-// whether the metric label made of it (resource[/subresource]) is valid UTF-8.
+// whether it resolves at all (it does not for /api/v1/proxy, /api/v1/watch: special verb with nothing behind it).
 func resourceOf(method, target string) (string, bool) {
 	u, err := url.ParseRequestURI(target)
 	if err != nil {
 		return "", true
 	}
 	info, err := e2e.GenericConfig(nil, nil).RequestInfoResolver.NewRequestInfo(&http.Request{Method: method, URL: u})
-	if err != nil || !info.IsResourceRequest {
+	if err != nil {
+		return "", false
+	}
+	if !info.IsResourceRequest {
 		return "", true
 	}
-	return info.Resource, utf8.ValidString(info.Resource) && utf8.ValidString(info.Subresource)
+	return info.Resource, true
 }
 
 func rowSetup(row string, cs *Case) (s scenario) {
@@ -441,9 +442,15 @@ func rowSetup(row string, cs *Case) (s scenario) {
 	}
 	defer func() {
 		res, ok := resourceOf(rig.UnHex(cs.Req.Method), rig.UnHex(cs.Req.Target))
-		s.Resource, s.LabelsUTF8 = rig.Hex(res), ok
+		s.Resource, s.RequestInfoOK = rig.Hex(res), ok
 	}()
 	switch row {
+	case "requestinfo-error":
+		rowRng := rand.New(rand.NewSource(cs.Req.BodySeed))
+		setHost(rig.Pick(rowRng, []string{clOK, clUnknown, clDeny, "127.0.0.1"}))
+		cs.Req.Target = rig.Hex(rig.Pick(rowRng, []string{"/api/v1/proxy", "/api/v1/watch", "/apis/apps/v1/watch", "/api/p;q=1/proxy?x=1"}))
+		h := strings.ToLower(rig.UnHex(cs.Req.Host))
+		s.ClusterKnown, s.DenyAll, s.HostIsIP = h != clUnknown, h == clDeny, h == "127.0.0.1"
 	case "non-utf8-resource":
 		rowRng := rand.New(rand.NewSource(cs.Req.BodySeed)) // a function of the case, so that a replay makes the same choice
 		setHost(rig.Pick(rowRng, []string{clOK, clUnknown, clDeny, clNoReady, "127.0.0.1"}))
@@ -559,8 +566,9 @@ type termModel struct {
 		Reason     string `json:"reason"`
 	} `json:"outcome"`
 	Table      json.RawMessage `json:"table"`
-	WellFormed bool            `json:"wellFormed"`
-	MatchesRow bool            `json:"matchesRow"`
+	WellFormed         bool `json:"wellFormed"`
+	MatchesRow         bool `json:"matchesRow"`
+	RetryAfterDemanded bool `json:"retryAfterDemanded"`
 }
 
 // holdOne occupies the single in-flight slot of clInflight (or drains the bucket of clBucket) with a helper request and
@@ -594,6 +602,12 @@ func (w *world) holdOne(host string, block bool) (release func(), ok bool) {
 
 func runTerm(c *rig.Ctx, w *world, cs Case, record bool) bool {
 	sc := rowSetup(cs.Row, &cs)
+	if cs.Row == "non-utf8-resource" && rig.UnHex(cs.Req.Host) == clOK {
+		// nothing terminates it: it must be forwarded like any other request (it used to drop the connection)
+		f := cs
+		f.Kind = "forward"
+		return runForward(c, w, f, record)
+	}
 	fail := func(kind, class, what string, impl, model interface{}) bool {
 		lastClass = class
 		if record {
@@ -623,18 +637,7 @@ func runTerm(c *rig.Ctx, w *world, cs Case, record bool) bool {
 	r1, b1 := w.totals()
 	release()
 	if o.Err != "" {
-		var d struct {
-			Outcome struct{ Kind string } `json:"outcome"`
-		}
-		if err := c.Model("C04.decide", map[string]interface{}{"scenario": sc}, &d); err != nil {
-			rec(c, rig.Failure{Kind: "diff", Class: "c04.model-error", What: err.Error(), Case: cs})
-			return false
-		}
-		if d.Outcome.Kind == "aborted" {
-			// the model mirrors the code (a panic in a metric label drops the connection); the property demands an answer
-			return fail("judge", "c04.no-answer.non-utf8-path", "neither forwarded nor answered, the connection is dropped: "+o.Err, o, d)
-		}
-		return fail("judge", noAnswerClass(cs), "the gateway did not answer: "+o.Err, o, d)
+		return fail("judge", noAnswerClass(cs), "neither forwarded nor answered, the connection is dropped: "+o.Err, o, nil)
 	}
 	resp := o.RawResp
 	obs := termObs{HTTPCode: resp.StatusCode, RetryAfter: -1, UpstreamRequests: r1 - r0, UpstreamBytes: b1 - b0,
@@ -672,8 +675,6 @@ func runTerm(c *rig.Ctx, w *world, cs Case, record bool) bool {
 		return false
 	}
 	switch m.Outcome.Kind {
-	case "aborted":
-		return fail("diff", "c04.term.aborted", "the model says the connection is dropped, the gateway answered", obs, m)
 	case "notProxied":
 		if !obs.NotProxied {
 			return fail("diff", "c04.term.not-proxied", "an IP-literal Host was not handed to the control-plane handler", obs, m)
@@ -700,7 +701,7 @@ func runTerm(c *rig.Ctx, w *world, cs Case, record bool) bool {
 			return fail("diff", "c04.term.code", fmt.Sprintf("model %d, code %d", m.Outcome.Code, obs.HTTPCode), obs, m)
 		}
 		if !m.WellFormed {
-			return fail("judge", "c04.term.not-a-status", fmt.Sprintf("gateway-terminated answer %d is not an API Status: Content-Type %q body %q", obs.HTTPCode, obs.ContentType, obs.BodyHead), obs, m)
+			return fail("judge", "c04.term.not-a-status.requestinfo-error", fmt.Sprintf("gateway-terminated answer %d is not an API Status: Content-Type %q body %q", obs.HTTPCode, obs.ContentType, obs.BodyHead), obs, m)
 		}
 		return fail("diff", "c04.term.plain", "the model says text/plain, the code answered a Status", obs, m)
 	}
@@ -710,6 +711,9 @@ func runTerm(c *rig.Ctx, w *world, cs Case, record bool) bool {
 	}
 	if !m.WellFormed {
 		return fail("judge", "c04.term.not-a-status", fmt.Sprintf("gateway-terminated answer %d is not a well-formed API Status whose code is the HTTP code: Content-Type %q body %q", obs.HTTPCode, obs.ContentType, obs.BodyHead), obs, m)
+	}
+	if !m.RetryAfterDemanded {
+		return fail("judge", "c04.term.retry-after", fmt.Sprintf("row %s: answer %d carries Retry-After=%d (-1 = none): a 503 and a flow-control 429 (events excepted) must say when to retry, the others must not", cs.Row, obs.HTTPCode, obs.RetryAfter), obs, m)
 	}
 	if !m.MatchesRow {
 		return fail("judge", "c04.term.row", fmt.Sprintf("row %s: the decision table says %d Retry-After=%d reason %s, the gateway answered %d Retry-After=%d reason %s", cs.Row,
@@ -811,7 +815,7 @@ func main() {
 		}
 		c.SetRule("url: one request target (path from 43 segment kinds incl. %2F %2f %25 %20 %ff%fe %41 ; + // . .. and raw bytes RFC 3986 forbids; query of 0-5 pairs from 17 keys x 20 values incl. duplicates, empty, valueless, malformed escapes, ';'; every 4th target is raw random bytes) through the real net/url + normalizeLocation + director. " +
 			"forward: one raw HTTP/1.1 round trip through the real handler chain to a scripted upstream: method (11), such a target, 0-6 header lines from 43 (hop-by-hop, Connection-listed, duplicates, casings, X-Forwarded-For, Te, Upgrade, impersonation), body none/0 B..2 MiB plain or chunked, upstream status 200-599, 0-5 of 29 response headers, body 0 B..2 MiB with Content-Length / chunked / close-delimited. " +
-			"term: one of 18 rows of the decision table on such a request. distinct = distinct canonical case; non-trivial = (url) the target has an escape, a query or a special byte; (forward) the target is not plain, or it has a query, special headers, a body, or the upstream sends special headers or a body; (term) always")
+			"term: one of 19 rows of the decision table (17 rows + requests whose RequestInfo does not resolve + requests whose resource is not valid UTF-8) on such a request. distinct = distinct canonical case; non-trivial = (url) the target has an escape, a query or a special byte; (forward) the target is not plain, or it has a query, special headers, a body, or the upstream sends special headers or a body; (term) always")
 		c.SetExtra("volatile_headers_canonicalised", volatileNotes)
 		c.SetExtra("never_generated", []string{"request headers Pragma, Expect, Content-Length/Transfer-Encoding other than the body writer's own, a second Host", "a Connection header naming Accept-Encoding, User-Agent, Content-Length, Authorization or the correlation header", "response header Trailer and trailers, Content-Encoding unless the client sent Accept-Encoding (net/http's transport would decode it)", "1xx upstream statuses other than the 101 of the upgrade case", "CONNECT, OPTIONS *, absolute-form targets, control bytes and spaces in the target (net/http answers 400 before any handler)"})
 		if c.Replay != "" {
